@@ -15,6 +15,12 @@ THEOREMS = [
     "transform_app", "transform_perm", "zero_weight_neutral", "transform_nil", "single_eq_collection",
     "parallel_eq_serial_partial", "skew_equiv", "pixels_nonneg", "pixel_total_le_weight",
     "pixel_sums_telescope", "product_kernels_valid", "uniform_kernel_valid",
+    "cdf_like_iff_mono01", "image_nonneg_uniform", "image_total_le_weight_uniform",
+    "image_nonneg_gaussian_zero_cov", "image_total_le_weight_gaussian_zero_cov", "kernelM_assumptions_hold",
+    "pixels_nonneg_on_imager_state", "uniform_pixel_is_area_fraction", "uniform_mass_conserved",
+    "uniform_mass_conserved_on_imager_state", "image_nonneg_gaussian_monotone_Phi",
+    "run_instances_are_kernel_models", "image_nonneg_run_instance",
+    "uniform_point_localised_on_imager_state",
 ]
 RULE = ("seeded generator of relation instances {additivity on unions, permutation, zero-weight points, empty "
         "diagram / empty collection, single vs collection (element-wise, in order), n_jobs in {None,1,2,4} "
